@@ -20,6 +20,8 @@ def gen_life_scenario(rng, tier, kind):
         if "at_us" in sc["fault"] and rng.random() < 0.25:
             sc["fault"]["write_error"] = True
         sc["post_ops"] = [CS.gen_op(rng, False) for _ in range(rng.randrange(0, 5))]
+        # the link drops in the middle of a line: bytes received, no CR LF yet
+        sc["partial_before_fault"] = rng.random() < 0.3
         sc["close_after"] = rng.random() < 0.5
         sc["disc_closes"] = rng.random() < 0.2  # the disconnect callback itself calls close()
     else:
@@ -37,6 +39,14 @@ def gen_life_scenario(rng, tier, kind):
         sc["post_ops"] = [CS.gen_op(rng, False) for _ in range(rng.randrange(0, 4))]
         sc["never_connected"] = rng.random() < 0.05
         sc["early_closer"] = rng.random() < 0.2  # a thread that calls close() while connect() may still be in progress
+        if rng.random() < 0.15:
+            # state "already lost": the link drops first, every close() comes afterwards
+            sc["closers"] = []
+            sc["cb_close_at"] = None
+            sc["early_closer"] = False
+            sc["never_connected"] = False
+            sc["fault"] = {"at_us": rng.randrange(0, 800_000), "kind": rng.choice(["eof", "err"])}
+            sc["lost_first"] = True
     # the same connection object has already been through a complete, planned session (connect, close)
     sc["prior_session"] = rng.random() < 0.2 and not sc.get("early_closer") and not sc.get("never_connected")
     return sc
@@ -51,7 +61,7 @@ def run_life_scenario(sc):
     s.mid_logs = []
 
     def do_close(c):
-        rec = {"thread": s.sim.cur.name, "start_idx": len(s.sim.events), "end_idx": None, "exc": None}
+        rec = {"thread": s.sim.cur.name, "start_idx": len(s.sim.events), "end_idx": None, "exc": None, "after_connect": bool(getattr(s, "connect_returned", False))}
         s.close_calls.append(rec)
         try:
             c.close()
@@ -115,9 +125,12 @@ def run_life_scenario(sc):
             if early:
                 early.join()
             return
+        s.connect_returned = True
         f = sc.get("fault")
         if f:
             if "at_us" in f:
+                if sc.get("partial_before_fault"):
+                    s.dev.emit_at(max(0, f["at_us"] - 2000), b"@MAIN:VOL=-12.5", cause=None)
                 s.dev.fault_at(f["at_us"], f["kind"])
             else:
                 k = f["after_writes"]
@@ -254,7 +267,7 @@ def mon_c16(s, sc):
     if not sc.get("fault") and s.disconnects:
         return "the disconnect callback was invoked by a planned close() on a healthy link"
     # a close() that found no reader thread yet (connect() not far enough) is a close before connecting
-    returned = [c["end_idx"] for c in s.close_calls if c["end_idx"] is not None and any(e["k"] == "PortClose" and e["th"] == c["thread"] for e in ev[c["start_idx"] : c["end_idx"]])]
+    returned = [c["end_idx"] for c in s.close_calls if c["end_idx"] is not None and (c.get("after_connect") or any(e["k"] == "PortClose" and e["th"] == c["thread"] for e in ev[c["start_idx"] : c["end_idx"]]))]
     if s.sim.failure is not None:
         return None
     if returned and s.port is not None:
